@@ -341,6 +341,9 @@ impl Monitor {
                             if st.enabled && st.pending != 0 {
                                 self.c15.violation("open:earlier-bucket-not-drained", format!("bucket {} opened while earlier bucket {} still has {} pending packets (seq {})", self.stage_name(s), st.name, st.pending, e.seq));
                             }
+                            if st.enabled && st.sentinel {
+                                self.c15.violation("open:earlier-bucket-sentinel-not-run", format!("bucket {} opened while the sentinel packet of earlier bucket {} has not been scheduled (seq {})", self.stage_name(s), st.name, e.seq));
+                            }
                             if st.enabled && !st.open {
                                 self.c15.violation("open:earlier-bucket-not-open", format!("bucket {} opened while earlier enabled bucket {} has not been opened (seq {})", self.stage_name(s), st.name, e.seq));
                             }
@@ -505,6 +508,12 @@ impl Monitor {
                     if st.pending != 0 {
                         self.c15.violation("gc-end:stw-bucket-not-empty", format!("bucket {} has {} pending packets at the end of GC #{}", st.name, st.pending, self.epoch));
                     }
+                }
+                for st in self.stages.iter_mut().filter(|s| s.stw) {
+                    if st.sentinel && st.enabled {
+                        self.c15.violation("gc-end:sentinel-never-scheduled", format!("the sentinel packet set for bucket {} was never scheduled in GC #{}", st.name, self.epoch));
+                    }
+                    st.sentinel = false;
                 }
                 let stale: Vec<String> = self.pkts.values().filter(|p| self.stages[p.stage].stw && p.epoch == self.epoch).map(|p| format!("{}@{}", p.tname, self.stages[p.stage].name)).take(4).collect();
                 if !stale.is_empty() {
